@@ -708,6 +708,15 @@ def rule_H(ctx):
           ops.append(('track[%s] = #DELETE' % nm, lambda t, m, nm=nm: (t.call('__setitem__', nm, '#DELETE'), m.pop(nm)) if nm in m else None))
           ops.append(('addListToAF %s <- list' % nm, lambda t, m, nm=nm: (fn['__name__']('addListToAF')(t, nm, new(nm)), m.__setitem__(nm, new(nm))) if nm in m else None))
           ops.append(('addListToAF %s <- array' % nm, lambda t, m, nm=nm: (fn['__name__']('addListToAF')(t, nm, ArrayLike(new(nm))), m.__setitem__(nm, new(nm))) if nm in m else None))
+      def fun_of(nm):
+          f_ = lambda track, i: Tok('fun', nm, i)
+          f_.__name__ = nm
+          return f_
+      for nm in NAMES:
+          # a feature computed by a function of (track, index): new, or recomputed while other features exist (whatever its column)
+          ops.append(('addAnalyticalFeature(function, %s)' % nm, lambda t, m, nm=nm: (t.call('addAnalyticalFeature', fun_of(nm), nm), m.__setitem__(nm, [Tok('fun', nm, k) for k in range(NOBS)]))))
+          ops.append(('addAnalyticalFeature(function named %s)' % nm, lambda t, m, nm=nm: (t.call('addAnalyticalFeature', fun_of(nm)), m.__setitem__(nm, [Tok('fun', nm, k) for k in range(NOBS)]))))
+          ops.append(('track[%s] = function' % nm, lambda t, m, nm=nm: (t.call('__setitem__', nm, fun_of(nm)), m.__setitem__(nm, [Tok('fun', nm, k) for k in range(NOBS)]))))
       if NOBS >= 3:
           def op_resample(t, m):
               t.call('resample', 12.0, 1, 1)          # delta, ALGO_LINEAR, MODE_SPATIAL
